@@ -67,7 +67,14 @@ where
     // to be a non-zero digit if there are any left.
     if i < integer.len() + fraction.len() {
         result.imul_small(10);
-        result.iadd_small(1);
+        if integer
+            .iter()
+            .chain(fraction)
+            .skip(i)
+            .any(|&digit| digit != b'0')
+        {
+            result.iadd_small(1);
+        }
     }
 
     result
